@@ -96,7 +96,8 @@ CHECKS['C07'] = dict(
     note='Trusted: CrossHair models of int/str/bool, desugared match statements. A symbolic str must not be the LEFT operand of a '
          'comparison with a foreign class (proxy returns TypeError instead of NotImplemented): harnesses keep symbolic strings on the '
          'right. Bug-hunting: a table of 8 inexact doubles x 10 decimals in both operand orders (decimal->double promotion), one-sided '
-         'timezones. Out: inexact doubles in general, DoubleProxy10 tolerance, collations, binary operands.',
+         'timezones. XPath 1.0 string/number comparisons, sub-second durations, sub-hour and year-boundary timezone comparisons, octet order of '
+         'binaries are included. Out: inexact doubles in general, DoubleProxy10 tolerance, collations, binary operands.',
     technique='SMT-based symbolic execution (CrossHair/z3) of comparison/logic templates vs definitional oracle; types enumerated, values symbolic',
     design='DESIGN.md §4 C07')
 CHECKS['C09'] = dict(
@@ -140,7 +141,8 @@ CHECKS['C05'] = dict(
          'outside stay unbound (XPST0008). Selector.select = list(iter_select), repeatable across documents, on a 4-element tree '
          'with symbolic labels whose structure, attributes and text are unchanged afterwards. Closures called under a re-binding of the '
          'captured name return the captured value; sequences stored in maps/arrays (built by the expression or passed in by the caller) '
-         'are not extended by the comma operator.',
+         'are not extended by the comma operator. Early-exit consumers (exists, head, quantifiers) and absolute paths leave the focus of the '
+         'enclosing expression and of a reused context object; let bindings do not outlive the let; select() and iter_select() agree.',
     note='Trusted: CrossHair int/str/dict models, pure-Python ElementTree under the solver (real ElementTree on replay). Out: schema '
          'objects, namespace maps, histories longer than 3; date/time variable immutability is bug-hunting only.',
     technique='SMT-based symbolic execution (CrossHair/z3) of enumerated binding programs over 3-step histories with symbolic values',
@@ -166,7 +168,8 @@ CHECKS['C01'] = dict(
          'nodes in document order equal to a reference evaluator of the XDM axis definitions, and leave the tree unchanged. The '
          'reference evaluator itself agrees with libxml2 on 214 812 concrete cases (validated offline, see DESIGN).',
     note='Trusted: CrossHair str/list models, pure-Python ElementTree under the solver (real ElementTree on replay), the reference '
-         'evaluator in harness/c01.py. Attribute templates (@k, [@k], ../@k with symbolic attribute presence) and position() predicates '
+         'evaluator in harness/c01.py; real lxml documents with document-level siblings are compared with libxml2 itself (lxml xpath()) '
+         'on 18 paths. Known finding C01-following-from-attribute. Attribute templates (@k, [@k], ../@k with symbolic attribute presence) and position() predicates '
          'are included. Out: lxml trees and libxml2 agreement for all inputs, namespace axis, trees of more than 5 elements.',
     technique='SMT-based symbolic execution (CrossHair/z3): shapes and templates enumerated, labels and positions symbolic, vs XDM reference evaluator',
     design='DESIGN.md §4 C01')
@@ -180,7 +183,8 @@ CHECKS['C02'] = dict(
     note='Trusted: CrossHair models, pure-Python ElementTree. Known finding C02-string-value-order (mixed-content string value not in '
          'document order) is excluded from the main condition and kept as a witness. Real lxml documents with document-level comments/'
          'PIs, attributes and namespace declarations are driven with the COUNTS as solver variables (the lxml objects are concrete on '
-         'each path); Element/ElementTree roots under fragment None/True/False. Out: lxml trees with symbolic text, trees beyond the '
+         'each path); Element/ElementTree roots under fragment None/True/False; comment / PI objects of the tree passed as item or variable '
+         'keep their identity; tails of comments and PIs are part of string values. Out: lxml trees with symbolic text, trees beyond the '
          'enumerated shapes.',
     technique='SMT-based symbolic execution (CrossHair/z3) of build_node_tree and node operators with symbolic counts/strings/labels',
     design='DESIGN.md §4 C02')
